@@ -597,6 +597,7 @@ func (c07) Run(t *testing.T, tape *core.Tape, rcx *RunCtx) *core.Result {
 		res.Steps, res.Strategy, res.Trace = sim.Steps, sim.Strategy, sim.Trace
 		hashParts = append(hashParts, sim.LogHash())
 		res.Count("decisions_with_choice", int64(sim.Multi))
+		res.Count("yields_passed_by_a_lone_runnable_task", int64(sim.Skipped))
 		sc.Panics = sim.Panics
 	}
 	// ---- oracle ----
